@@ -75,6 +75,7 @@ pub fn run(seed: u64, ntraces: usize) {
         let mut credited: Vec<(VMAddress, Vec<u8>, u64)> = vec![];     // (dispatcher, token, nonce) of failed dispatches: likely outstanding credits
         let mut next_id: u64 = 0;
         let mut msg_counter = 0u64;
+        let mut batches: Vec<(Vec<u8>, Vec<u8>, Vec<u8>, Value)> = vec![];       // (message id, raw batch, proof, message json) of every approval sent to the gateway
         let mut sent_cmds: Vec<(Vec<u8>, Vec<u8>, Vec<u8>, Vec<u8>)> = vec![];   // (chain, id, src, payload) of executed commands, for replays
         let mut etas: Vec<Option<u64>> = vec![None; props.len()];
         let mut approved: Vec<bool> = vec![false; props.len()];
@@ -109,7 +110,7 @@ pub fn run(seed: u64, ntraces: usize) {
                     (pi, cmd, match r.below(3) { 0 => 0, 1 => now + min_delay + r.below(30), _ => now + r.below(min_delay + 2) }) } };
                 let p = &props[pi];
                 let mut payload = exec_payload(cmd, p, eta);
-                let variant = if forced.is_some() || r.chance(2, 3) { 0 } else { r.below(12) };
+                let variant = if forced.is_some() || r.chance(2, 3) { 0 } else { r.below(13) };
                 if variant == 1 { payload[1..33].copy_from_slice(&[0u8; 32]); }            // zero target
                 if variant == 2 { payload.push(0); }                                         // trailing byte
                 if variant == 3 { payload[0] = 9; }                                          // unknown command
@@ -124,14 +125,20 @@ pub fn run(seed: u64, ntraces: usize) {
                     let raw = m.encode();
                     let pr = build_proof(&mut r, &pool, &mut tab, &set, &domain, 0, &raw, 0);
                     let st = w.call0(&relayer, &gw, "approveMessages", vec![raw.clone(), pr.bytes.clone()]);
+                    let mj = json!({"chain": hx(&m.chain), "id": hx(&m.id), "src": hx(&m.src), "contract": hx(&m.contract), "ph": hx(&m.ph)});
+                    batches.push((id.clone(), raw.clone(), pr.bytes.clone(), mj.clone()));
                     steps.push(json!({"op": {"op": "gwApprove", "caller": hx(relayer.as_bytes()), "now": now, "messages": hx(&raw), "proof": hx(&pr.bytes),
-                        "msg": {"chain": hx(&m.chain), "id": hx(&m.id), "src": hx(&m.src), "contract": hx(&m.contract), "ph": hx(&m.ph)}}, "res": st.json}));
+                        "msg": mj}, "res": st.json}));
                 }
-                let (xc, xi, xs, xp) = if variant == 9 && !sent_cmds.is_empty() { r.pick(&sent_cmds).clone() } else { (chain, id, src, payload.clone()) };
+                let (xc, xi, xs, xp) = if (variant == 9 || variant == 10) && !sent_cmds.is_empty() { r.pick(&sent_cmds).clone() } else { (chain, id, src, payload.clone()) };
+                if variant == 10 { if let Some((_, raw, proof, mj)) = batches.iter().find(|b| b.0 == xi).cloned() {
+                    // the public approval batch of an already executed command is submitted to the gateway again before the replay
+                    let st = w.call0(&users[0], &gw, "approveMessages", vec![raw.clone(), proof.clone()]);
+                    steps.push(json!({"op": {"op": "gwApprove", "caller": hx(users[0].as_bytes()), "now": now, "messages": hx(&raw), "proof": hx(&proof), "msg": mj}, "res": st.json})); } }
                 step = w.call0(&relayer, &gov, "execute", vec![xc.clone(), xi.clone(), xs.clone(), xp.clone()]);
                 if step.res.result_status == 0 {
                     sent_cmds.push((xc.clone(), xi.clone(), xs.clone(), xp.clone()));
-                    if variant != 9 { match cmd { 0 => etas[pi] = Some(eta.max(now + min_delay)), 1 => etas[pi] = None, 2 => approved[pi] = true, _ => approved[pi] = false } }
+                    if variant != 9 && variant != 10 { match cmd { 0 => etas[pi] = Some(eta.max(now + min_delay)), 1 => etas[pi] = None, 2 => approved[pi] = true, _ => approved[pi] = false } }
                 }
                 opj = json!({"op": "execute", "caller": hx(relayer.as_bytes()), "chain": hx(&xc), "id": hx(&xi), "src": hx(&xs), "payload": hx(&xp),
                              "label": format!("cmd{}/v{}", cmd, variant), "prop": pi, "cmd": cmd, "variant": variant});
